@@ -380,6 +380,7 @@ Lemma cview_load_dump : forall e clear s, cview_of (load_dump e clear s) = cview
 Proof.
   intros. unfold load_dump.
   destruct (stored (sr (nd s))) as [[sn|]|]; auto.
+  destruct (clear && (eidx (s_e1 sn) <=? applied (nd s))); auto.
   destruct (self_ver (nd s) <? s_ver sn); auto.
   set (s1 := upd (fun n => n <| hist := s_hist sn |> <| enabled_ver := s_ver sn |>) s).
   set (s2 := if clear then s1 else _).
@@ -508,9 +509,10 @@ Proof.
   - destruct (set_transmission p s6) as [s7 done] eqn:ST.
     assert (C7 : cview_of s7 = cview_of s6).
     { change s7 with (fst (s7, done)). rewrite <- ST. apply sview_cview, sview_set_transmission. }
-    destruct (done && load_dump_ok s7).
+    destruct (done && load_dump_ok s7); [|destruct done].
     + apply K. rewrite (view_cview _ _ (view_ae_commit _ _ _)), (view_cview _ _ (view_send_next_idx _ _ _ _ _)).
       now rewrite cview_load_dump.
+    + apply K. rewrite (view_cview _ _ (view_ae_commit _ _ _)). now rewrite cview_load_dump.
     + apply K. now rewrite (view_cview _ _ (view_ae_commit _ _ _)).
 Qed.
 
